@@ -190,7 +190,17 @@ impl<'ctx> Ledger<'ctx> {
                 };
                 bal.add_amount(posting.account, delta.into_owned());
             }
-            bal.round(ctx);
+            // An up-to-date conversion follows: only the converted result is rounded,
+            // otherwise the amounts would be rounded twice, first in their own commodity.
+            if !matches!(
+                query.conversion,
+                Some(Conversion {
+                    strategy: ConversionStrategy::UpToDate { .. },
+                    ..
+                })
+            ) {
+                bal.round(ctx);
+            }
             Cow::Owned(bal)
         };
         match query.conversion {
